@@ -362,7 +362,9 @@ func (c *c08) xfEnc(s string, e g7Enc, in string, level int) {
 			r.Count(fmt.Sprintf("xf/%s/%d/%d", s, cp, fill), len(src) > 0, "encoder Transform, destination "+capBucket(cp, need)+fillBucket(fill))
 			where := in + fmt.Sprintf(" len(dst)=%d dst pre-filled %s", cp, fillName(fill, d0))
 			c.judgeCall("encode", call, where, len(src), cp, need, e.cls == 0, e.out, true)
-			if call.cls != 5 && (call.cls != 3 || (call.nDst == 0 && call.nSrc == 0)) {
+			// both fills are judged above; as a model case: one fill per size (all at the exact fit and for the corpus)
+			asCase := level > 2 || cp == need || !r.Quick || fill == fills[cp%len(fills)]
+			if asCase && call.cls != 5 && (call.cls != 3 || (call.nDst == 0 && call.nSrc == 0)) {
 				out := []byte{}
 				if call.cls == 0 && call.nDst >= 0 && call.nDst <= len(dst) {
 					out = dst[:call.nDst]
